@@ -254,6 +254,8 @@ func (x *Exec) evalCall(env *SpecEnv, e *ECall) SVal {
 		return SVal{x.ghostGet(env.st, "held", VSet{x.emptySetTerm(SInt)}), &SType{Math: "set", Elem: intT}}
 	case "isnil":
 		return SVal{VScalar{x.isNil(arg(0))}, boolT}
+	case "wrapu64":
+		return SVal{VScalar{wrapInt(x.evalInt(env, e.Args[0]), types.Typ[types.Uint64], false)}, goT(types.Typ[types.Uint64])}
 	case "wrap64":
 		return SVal{VScalar{wrapInt(x.evalInt(env, e.Args[0]), types.Typ[types.Int64], false)}, goT(types.Typ[types.Int64])}
 	}
@@ -328,6 +330,7 @@ func (x *Exec) card(s Term) Term {
 			fmt.Sprintf("(declare-fun %s (%s) Int)", fn, as),
 			fmt.Sprintf("(assert (forall ((s %s)) (! (>= (%s s) 0) :pattern ((%s s)))))", as, fn, fn),
 			fmt.Sprintf("(assert (= (%s ((as const %s) false)) 0))", fn, as),
+			fmt.Sprintf("(assert (forall ((s %s) (k %s)) (! (=> (select s k) (> (%s s) 0)) :pattern ((select s k) (%s s)))))", as, ks, fn, fn),
 			fmt.Sprintf("(assert (forall ((s %s) (k %s)) (! (= (%s (store s k true)) (ite (select s k) (%s s) (+ (%s s) 1))) :pattern ((%s (store s k true))))))", as, ks, fn, fn, fn, fn),
 			fmt.Sprintf("(assert (forall ((s %s) (k %s)) (! (= (%s (store s k false)) (ite (select s k) (- (%s s) 1) (%s s))) :pattern ((%s (store s k false))))))", as, ks, fn, fn, fn, fn),
 		)
